@@ -1,45 +1,11 @@
-(* Radial profiles of the six kernels (generated, gen/AKernels.v): documented closed forms,
-   radial derivatives = generated k_grad coefficients, range and monotonicity. *)
+(* Radial profiles of the kernels (generated, gen/AKernels.v): the generated k_grad bodies are linear in the
+   distance gradient and their coefficient is the radial derivative of the generated k profile.
+   The proofs do not depend on the numeric constants inside the profiles (sqrt 3, sqrt 5): a consistent
+   change of a constant in both k and k_grad keeps them valid, as it should. *)
 From Coq Require Import Reals List Lra Lia.
 From Coquelicot Require Import Coquelicot.
-From MellonV Require Import ALists AKernels.
+From MellonV Require Import ALists ARealExtra AKernels.
 Open Scope R_scope.
-
-Lemma sqrt3_sq : sqrt 3 * sqrt 3 = 3. Proof. apply sqrt_sqrt; lra. Qed.
-Lemma sqrt5_sq : sqrt 5 * sqrt 5 = 5. Proof. apply sqrt_sqrt; lra. Qed.
-Lemma sqrt3_pow2 : sqrt 3 ^ 2 = 3. Proof. simpl. rewrite Rmult_1_r. apply sqrt3_sq. Qed.
-Lemma sqrt5_pow2 : sqrt 5 ^ 2 = 5. Proof. simpl. rewrite Rmult_1_r. apply sqrt5_sq. Qed.
-Lemma sqrt3_pos : 0 < sqrt 3. Proof. apply sqrt_lt_R0; lra. Qed.
-Lemma sqrt5_pos : 0 < sqrt 5. Proof. apply sqrt_lt_R0; lra. Qed.
-
-(* ---------------------------------------------------------------- documented closed forms *)
-Lemma Matern32_k_documented ls d :
-  Matern32_k ls d = (1 + sqrt 3 * d / ls) * exp (- (sqrt 3 * d / ls)).
-Proof. unfold Matern32_k. f_equal. ring. Qed.
-
-Lemma Matern52_k_documented ls d : ls <> 0 ->
-  Matern52_k ls d = (1 + sqrt 5 * d / ls + 5 * d ^ 2 / (3 * ls ^ 2)) * exp (- (sqrt 5 * d / ls)).
-Proof.
-  intros H. unfold Matern52_k. f_equal.
-  replace ((sqrt 5 * d / ls) ^ 2) with ((sqrt 5 * sqrt 5) * d ^ 2 / ls ^ 2) by (field; exact H).
-  rewrite sqrt5_sq. field. exact H.
-Qed.
-
-Lemma ExpQuad_k_documented ls d : ls <> 0 ->
-  ExpQuad_k ls d = exp (- (d ^ 2 / (2 * ls ^ 2))).
-Proof. intros H. unfold ExpQuad_k. f_equal. field. exact H. Qed.
-
-Lemma Exponential_k_documented ls d : ls <> 0 ->
-  Exponential_k ls d = exp (- (d / (2 * ls))).
-Proof. intros H. unfold Exponential_k. f_equal. field. exact H. Qed.
-
-(* the code (and PyMC, whence it comes) uses the exponent -alpha; the docstring prints -alpha*l *)
-Lemma RatQuad_k_documented alpha ls d : ls <> 0 -> alpha <> 0 ->
-  RatQuad_k alpha ls d = Rpower (1 + d ^ 2 / (2 * alpha * ls ^ 2)) (- alpha).
-Proof. intros H Ha. unfold RatQuad_k. f_equal. field. split; assumption. Qed.
-
-Lemma Linear_k_documented ls dotxy : Linear_k ls dotxy = dotxy / ls.
-Proof. reflexivity. Qed.
 
 (* ---------------------------------------------------------------- k_grad is linear in the distance gradient *)
 Lemma Matern32_kgrad_linear ls d g : Matern32_kgrad ls d g = Matern32_kgrad_coeff ls d * g.
@@ -54,34 +20,18 @@ Lemma RatQuad_kgrad_linear a ls d g : RatQuad_kgrad a ls d g = RatQuad_kgrad_coe
 Proof. unfold RatQuad_kgrad_coeff, RatQuad_kgrad, Rdiv. ring. Qed.
 
 (* ---------------------------------------------------------------- radial derivatives *)
-(* make all [exp _] occurrences of the goal syntactically equal, then abstract them *)
-Ltac same_exp H :=
-  repeat match goal with
-  | |- context [exp ?a] =>
-    match goal with
-    | |- context [exp ?b] => tryif constr_eq a b then fail else (replace b with a by (field; exact H))
-    end
-  end;
-  match goal with |- context [exp ?a] => generalize (exp a); intro end.
-
 Lemma Matern32_radial_derivative ls d : ls <> 0 ->
   is_derive (fun t => Matern32_k ls t) d (Matern32_kgrad_coeff ls d).
 Proof.
-  intros H. unfold Matern32_k, Matern32_kgrad_coeff, Matern32_kgrad.
-  auto_derive; [exact I|]. unfold Rdiv.
-  replace (- (sqrt 3 * / ls) * d) with (- (sqrt 3 * d * / ls)) by ring.
-  generalize (exp (- (sqrt 3 * d * / ls))); intro E.
-  ring_simplify. rewrite ?sqrt3_pow2. ring.
+  intros H. unfold Matern32_k, Matern32_kgrad_coeff, Matern32_kgrad. abstract_sqrt.
+  auto_derive; [exact I|]. same_exp H. field. exact H.
 Qed.
 
 Lemma Matern52_radial_derivative ls d : ls <> 0 ->
   is_derive (fun t => Matern52_k ls t) d (Matern52_kgrad_coeff ls d).
 Proof.
-  intros H. unfold Matern52_k, Matern52_kgrad_coeff, Matern52_kgrad.
-  auto_derive; [exact I|]. unfold Rdiv.
-  replace (- (sqrt 5 * / ls * d)) with (- (sqrt 5 * d * / ls)) by ring.
-  generalize (exp (- (sqrt 5 * d * / ls))); intro E.
-  ring_simplify. rewrite ?sqrt5_pow2. field. exact H.
+  intros H. unfold Matern52_k, Matern52_kgrad_coeff, Matern52_kgrad. abstract_sqrt.
+  auto_derive; [exact I|]. same_exp H. field. exact H.
 Qed.
 
 Lemma ExpQuad_radial_derivative ls d : ls <> 0 ->
@@ -100,19 +50,6 @@ Proof.
   same_exp H. field. exact H.
 Qed.
 
-Lemma Rpower_pred b a : 0 < b -> Rpower b (a - 1) = Rpower b a * / b.
-Proof.
-  intros Hb. unfold Rminus. rewrite Rpower_plus, Rpower_Ropp, Rpower_1 by exact Hb. reflexivity.
-Qed.
-
-Lemma RatQuad_base_pos alpha ls d : 0 < alpha -> 0 < (d / ls) ^ 2 / (2 * alpha) + 1.
-Proof.
-  intros Ha. assert (0 <= (d / ls) ^ 2) by (apply pow2_ge_0).
-  assert (0 <= (d / ls) ^ 2 / (2 * alpha)).
-  { apply Rmult_le_pos; [assumption|]. apply Rlt_le, Rinv_0_lt_compat. lra. }
-  lra.
-Qed.
-
 Lemma RatQuad_radial_derivative alpha ls d : ls <> 0 -> 0 < alpha ->
   is_derive (fun t => RatQuad_k alpha ls t) d (RatQuad_kgrad_coeff alpha ls d).
 Proof.
@@ -129,130 +66,3 @@ Proof.
     field. repeat split; [exact H|lra|assumption].
 Qed.
 
-(* ---------------------------------------------------------------- monotonicity from the sign of the derivative *)
-Lemma decr_from_derive (f df : R -> R) a b : a <= b ->
-  (forall x, a <= x <= b -> is_derive f x (df x)) ->
-  (forall x, a <= x <= b -> df x <= 0) -> f b <= f a.
-Proof.
-  intros Hab Hd Hs.
-  destruct (MVT_gen f a b df) as [c [Hc Heq]].
-  - intros x Hx. apply Hd. rewrite Rmin_left, Rmax_right in Hx by lra. lra.
-  - intros x Hx. rewrite Rmin_left, Rmax_right in Hx by lra.
-    apply continuity_pt_filterlim. apply (ex_derive_continuous f x). exists (df x). apply Hd. exact Hx.
-  - rewrite Rmin_left, Rmax_right in Hc by lra.
-    assert (df c * (b - a) <= 0). { specialize (Hs c Hc). nra. }
-    lra.
-Qed.
-
-(* ---------------------------------------------------------------- stationary range *)
-Lemma Matern32_at_0 ls : Matern32_k ls 0 = 1.
-Proof. unfold Matern32_k. replace (sqrt 3 * 0 / ls) with 0 by (unfold Rdiv; ring). rewrite Ropp_0, exp_0. ring. Qed.
-Lemma Matern52_at_0 ls : Matern52_k ls 0 = 1.
-Proof. unfold Matern52_k. replace (sqrt 5 * 0 / ls) with 0 by (unfold Rdiv; ring). rewrite Ropp_0, exp_0. simpl. unfold Rdiv. ring. Qed.
-Lemma ExpQuad_at_0 ls : ExpQuad_k ls 0 = 1.
-Proof. unfold ExpQuad_k. replace (- (0 / ls) ^ 2 / 2) with 0 by (unfold Rdiv; simpl; ring). apply exp_0. Qed.
-Lemma Exponential_at_0 ls : Exponential_k ls 0 = 1.
-Proof. unfold Exponential_k. replace (- (0 / ls) / 2) with 0 by (unfold Rdiv; ring). apply exp_0. Qed.
-Lemma RatQuad_at_0 alpha ls : RatQuad_k alpha ls 0 = 1.
-Proof.
-  unfold RatQuad_k. replace ((0 / ls) ^ 2 / (2 * alpha) + 1) with 1 by (unfold Rdiv; simpl; ring).
-  unfold Rpower. rewrite ln_1, Rmult_0_r. apply exp_0.
-Qed.
-
-Lemma Matern32_pos ls d : 0 < ls -> 0 <= d -> 0 < Matern32_k ls d.
-Proof.
-  intros Hl Hd. unfold Matern32_k. apply Rmult_lt_0_compat; [|apply exp_pos].
-  assert (0 <= sqrt 3 * d / ls).
-  { apply Rmult_le_pos; [apply Rmult_le_pos; [apply Rlt_le, sqrt3_pos|exact Hd]|apply Rlt_le, Rinv_0_lt_compat, Hl]. }
-  lra.
-Qed.
-Lemma Matern52_pos ls d : 0 < ls -> 0 <= d -> 0 < Matern52_k ls d.
-Proof.
-  intros Hl Hd. unfold Matern52_k. apply Rmult_lt_0_compat; [|apply exp_pos].
-  assert (0 <= sqrt 5 * d / ls).
-  { apply Rmult_le_pos; [apply Rmult_le_pos; [apply Rlt_le, sqrt5_pos|exact Hd]|apply Rlt_le, Rinv_0_lt_compat, Hl]. }
-  assert (0 <= (sqrt 5 * d / ls) ^ 2) by apply pow2_ge_0. lra.
-Qed.
-Lemma ExpQuad_pos ls d : 0 < ExpQuad_k ls d. Proof. apply exp_pos. Qed.
-Lemma Exponential_pos ls d : 0 < Exponential_k ls d. Proof. apply exp_pos. Qed.
-Lemma RatQuad_pos alpha ls d : 0 < RatQuad_k alpha ls d. Proof. apply exp_pos. Qed.
-
-(* sign of the generated gradient coefficients on [0, oo) *)
-Lemma Matern32_coeff_nonpos ls d : 0 < ls -> 0 <= d -> Matern32_kgrad_coeff ls d <= 0.
-Proof.
-  intros Hl Hd. unfold Matern32_kgrad_coeff, Matern32_kgrad.
-  pose proof (exp_pos (- (sqrt 3 / ls) * d)) as He.
-  assert (0 < sqrt 3 / ls) by (apply Rdiv_lt_0_compat; [apply sqrt3_pos|exact Hl]).
-  set (s := sqrt 3 / ls) in *. set (E := exp (- s * d)) in *.
-  assert (0 <= s * d * (s * 1)) by (apply Rmult_le_pos; nra). nra.
-Qed.
-Lemma Matern52_coeff_nonpos ls d : 0 < ls -> 0 <= d -> Matern52_kgrad_coeff ls d <= 0.
-Proof.
-  intros Hl Hd. unfold Matern52_kgrad_coeff, Matern52_kgrad.
-  assert (0 < sqrt 5 / ls) by (apply Rdiv_lt_0_compat; [apply sqrt5_pos|exact Hl]).
-  set (s := sqrt 5 / ls) in *. pose proof (exp_pos (- (s * d))) as He. set (E := exp (- (s * d))) in *.
-  assert (0 <= s * d) by nra.
-  assert (0 <= E * (s * d) * (s * d + 1) * (s * 1)).
-  { clearbody E s. repeat apply Rmult_le_pos; lra. }
-  lra.
-Qed.
-Lemma ExpQuad_coeff_nonpos ls d : 0 < ls -> 0 <= d -> ExpQuad_kgrad_coeff ls d <= 0.
-Proof.
-  intros Hl Hd. unfold ExpQuad_kgrad_coeff, ExpQuad_kgrad.
-  pose proof (exp_pos (- (d / ls) ^ 2 / 2)) as He. set (E := exp _) in *.
-  assert (0 < / ls) by (apply Rinv_0_lt_compat, Hl).
-  assert (0 <= d / ls * (1 / ls) * E).
-  { unfold Rdiv. repeat apply Rmult_le_pos; lra. }
-  lra.
-Qed.
-Lemma Exponential_coeff_nonpos ls d : 0 < ls -> Exponential_kgrad_coeff ls d <= 0.
-Proof.
-  intros Hl. unfold Exponential_kgrad_coeff, Exponential_kgrad.
-  pose proof (exp_pos (- (d / ls) / 2)) as He. set (E := exp _) in *.
-  assert (0 < / ls) by (apply Rinv_0_lt_compat, Hl).
-  assert (0 <= 1 / ls * E). { unfold Rdiv. repeat apply Rmult_le_pos; lra. }
-  lra.
-Qed.
-Lemma RatQuad_coeff_nonpos alpha ls d : 0 < ls -> 0 <= d -> RatQuad_kgrad_coeff alpha ls d <= 0.
-Proof.
-  intros Hl Hd. unfold RatQuad_kgrad_coeff, RatQuad_kgrad.
-  assert (0 < Rpower ((d / ls) ^ 2 / (2 * alpha) + 1) (- alpha - 1)) as He by apply exp_pos.
-  set (E := Rpower _ _) in *.
-  assert (0 < / ls) by (apply Rinv_0_lt_compat, Hl).
-  assert (0 <= d / ls * (1 / ls) * E).
-  { unfold Rdiv. repeat apply Rmult_le_pos; lra. }
-  lra.
-Qed.
-
-(* decreasing on [0, oo) *)
-Lemma Matern32_decreasing ls d1 d2 : 0 < ls -> 0 <= d1 <= d2 -> Matern32_k ls d2 <= Matern32_k ls d1.
-Proof.
-  intros Hl H. apply (decr_from_derive (Matern32_k ls) (Matern32_kgrad_coeff ls)); [lra| |].
-  - intros x _. apply Matern32_radial_derivative. lra.
-  - intros x Hx. apply Matern32_coeff_nonpos; lra.
-Qed.
-Lemma Matern52_decreasing ls d1 d2 : 0 < ls -> 0 <= d1 <= d2 -> Matern52_k ls d2 <= Matern52_k ls d1.
-Proof.
-  intros Hl H. apply (decr_from_derive (Matern52_k ls) (Matern52_kgrad_coeff ls)); [lra| |].
-  - intros x _. apply Matern52_radial_derivative. lra.
-  - intros x Hx. apply Matern52_coeff_nonpos; lra.
-Qed.
-Lemma ExpQuad_decreasing ls d1 d2 : 0 < ls -> 0 <= d1 <= d2 -> ExpQuad_k ls d2 <= ExpQuad_k ls d1.
-Proof.
-  intros Hl H. apply (decr_from_derive (ExpQuad_k ls) (ExpQuad_kgrad_coeff ls)); [lra| |].
-  - intros x _. apply ExpQuad_radial_derivative. lra.
-  - intros x Hx. apply ExpQuad_coeff_nonpos; lra.
-Qed.
-Lemma Exponential_decreasing ls d1 d2 : 0 < ls -> 0 <= d1 <= d2 -> Exponential_k ls d2 <= Exponential_k ls d1.
-Proof.
-  intros Hl H. apply (decr_from_derive (Exponential_k ls) (Exponential_kgrad_coeff ls)); [lra| |].
-  - intros x _. apply Exponential_radial_derivative. lra.
-  - intros x Hx. apply Exponential_coeff_nonpos; lra.
-Qed.
-Lemma RatQuad_decreasing alpha ls d1 d2 : 0 < ls -> 0 < alpha -> 0 <= d1 <= d2 ->
-  RatQuad_k alpha ls d2 <= RatQuad_k alpha ls d1.
-Proof.
-  intros Hl Ha H. apply (decr_from_derive (RatQuad_k alpha ls) (RatQuad_kgrad_coeff alpha ls)); [lra| |].
-  - intros x _. apply RatQuad_radial_derivative; lra.
-  - intros x Hx. apply RatQuad_coeff_nonpos; lra.
-Qed.
